@@ -32,6 +32,7 @@ import (
 	"log"
 	"os"
 	"path"
+	"sort"
 	"strconv"
 	"strings"
 
@@ -46,6 +47,7 @@ var (
 	nPlan   = flag.Int("nplan", 150, "number of restore file-plan cases")
 	nTrace  = flag.Int("ntrace", 2, "value-level traces per engine and kind")
 	lenTr   = flag.Int("tracelen", 40, "ops per trace")
+	exh     = flag.Bool("exh", false, "add the exhaustive small-scope purge/latest cases")
 	nFetch  = flag.Int("nfetch", 1, "fetch-after-lineage-reset scenarios per engine")
 	engines = flag.String("engines", "pebble,rocksdb,mem", "engines for the traces")
 	k1engs  = flag.String("k1", "pebble", "engines for the K1 probe (comma separated, empty = none)")
@@ -266,6 +268,28 @@ func generate(r *hx.Rng) []cs {
 		}
 		cases = append(cases, cs{id: next(), kind: "L", f: []string{fmt.Sprint(r.Pick(4)), hexNames(names), hexNames(match)}})
 	}
+	if *exh {
+		// every subset of six checkpoints (two of them out of index order) x keepNum 0..6 x six latest indexes
+		pool := [][2]uint64{{1, 1}, {1, 5}, {2, 3}, {2, 9}, {3, 2}, {3, 12}}
+		lat := []uint64{0, 2, 4, 6, 10, ^uint64(0) - 1}
+		for m := 0; m < 1<<uint(len(pool)); m++ {
+			var names []string
+			for k, p := range pool {
+				if m&(1<<uint(k)) != 0 {
+					names = append(names, rockredis.GetCheckpointDir(p[0], p[1]))
+				}
+			}
+			sort.Strings(names)
+			for keep := 0; keep <= len(pool); keep++ {
+				for _, l := range lat {
+					cases = append(cases, cs{id: next(), kind: "P", f: []string{fmt.Sprint(keep), fmt.Sprintf("%x", l), hexNames(names)}})
+				}
+			}
+			for skip := 0; skip < 3; skip++ {
+				cases = append(cases, cs{id: next(), kind: "L", f: []string{fmt.Sprint(skip), hexNames(names), hexNames(names)}})
+			}
+		}
+	}
 	for i := 0; i < *nPlan; i++ {
 		cur, ck := genPlan(r)
 		cases = append(cases, cs{id: next(), kind: "F", f: []string{fentsStr(cur), fentsStr(ck)}})
@@ -287,8 +311,15 @@ func generate(r *hx.Rng) []cs {
 		if e == "" || e == "mem" {
 			continue
 		}
+		if *exh {
+			for r1 := 0; r1 < 4; r1++ {
+				for r2 := 0; r2 < 4; r2++ {
+					cases = append(cases, cs{id: next(), kind: "E", f: []string{e, fmt.Sprint(r1), fmt.Sprint(r2)}})
+				}
+			}
+		}
 		for k := 0; k < *nFetch; k++ {
-			cases = append(cases, cs{id: next(), kind: "E", f: []string{e, fmt.Sprint(r.Pick(4)), fmt.Sprint(r.Pick(4))}})
+			cases = append(cases, cs{id: next(), kind: "E", f: []string{e, fmt.Sprint(r.Pick(6)), fmt.Sprint(r.Pick(6))}})
 		}
 	}
 	for _, e := range strings.Split(*k1engs, ",") {
